@@ -37,7 +37,7 @@ fn unresolved() -> Vec<QueryResult> {
     a
 }
 
-//@ k16_parse_int_nonstr props=C18,C08 tier=quick expect=pass fns=parse_int :: parse_int on Int (any i64) = identity; on Char: digit value or error; on Bool/Null/unresolved: skipped
+//@ k16_parse_int_nonstr props=C18,C08:t tier=quick expect=pass fns=parse_int :: parse_int on Int (any i64) = identity; on Char: digit value or error; on Bool/Null/unresolved: skipped
 proof!(k16_parse_int_nonstr, 4, {
     let i: i64 = kani::any();
     let a = one(PathAwareValue::Int((p(), i)));
@@ -89,26 +89,6 @@ proof!(k16_parse_char_int, 4, {
     kani::cover!(r.is_err());
     forget(r);
     forget(a);
-});
-
-//@ k16_parse_float_int props=C18,C08 tier=quick expect=pass fns=parse_float :: parse_float on Int (any i64) = that integer as f64; on Float = identity (bitwise, incl. NaN payloads); Bool skipped
-proof!(k16_parse_float_int, 4, {
-    let i: i64 = kani::any();
-    let a = one(PathAwareValue::Int((p(), i)));
-    let r = parse_float(&a);
-    assert!(matches!(&r, Ok(v) if v.len() == 1 && matches!(&v[0], Some(PathAwareValue::Float((_, f))) if *f == i as f64)));
-    forget(r);
-    let f: f64 = kani::any();
-    let a2 = one(PathAwareValue::Float((p(), f)));
-    let r2 = parse_float(&a2);
-    assert!(matches!(&r2, Ok(v) if matches!(&v[0], Some(PathAwareValue::Float((_, g))) if g.to_bits() == f.to_bits())));
-    forget(r2);
-    let a3 = one(PathAwareValue::Bool((p(), kani::any())));
-    let r3 = parse_float(&a3);
-    assert!(matches!(&r3, Ok(v) if v[0].is_none()));
-    kani::cover!(f.is_nan());
-    forget(r3);
-    forget(a); forget(a2); forget(a3);
 });
 
 //@ k16_conv_twin props=C18,C08 tier=quick expect=fail fns=parse_int :: vacuity twin of the converter family
